@@ -74,17 +74,17 @@ def theCfg : Cfg ByteArray :=
 
 def str (s : String) : Bytes := s.toUTF8.toList
 
-partial def readNode (w : World ByteArray) : Node ByteArray → Option Bytes
-  | .file c => some c.toList
+partial def readNode (lossy : Bool) (w : World ByteArray) : Node ByteArray → Option Bytes
+  | .file c => some (if lossy then str (toString c.size) else c.toList)
   | .link (.obj d) => match w.store.get d with
-    | some o => some (o.bytes theCtx).toList
+    | some o => some (if lossy then str (toString (o.bytes theCtx).size) else (o.bytes theCtx).toList)
     | none => none
   | .link (.foreign _) => none
   | .other => none
   | .dir es =>
     let sorted := es.toArray.qsort (fun a b => decide (a.1 < b.1)) |>.toList
     sorted.foldl (fun acc (nm, n) =>
-      match acc, readNode w n with
+      match acc, readNode lossy w n with
       | some a, some b => some (a ++ nm ++ str "=" ++ b ++ str ";")
       | _, _ => none) (some [])
 
@@ -104,9 +104,13 @@ def execCmd : Exec ByteArray := fun stg w =>
   | prog :: id :: rest =>
     -- `vprobe …` looks but does not touch
     if prog == str "vprobe" then .ok w else
+    -- `vfail <id> <code>` touches nothing and exits non-zero
+    if prog == str "vfail" then .error .other else
     let outs := rest.takeWhile (· != str "--")
     let ins := (rest.dropWhile (· != str "--")).drop 1
-    let inContents := ins.map fun p => (getPath w.ws (Path.comps p)).bind (readNode w)
+    -- `vlen …`: like vcmd, but only the lengths of the input files matter
+    let lossy := prog == str "vlen"
+    let inContents := ins.map fun p => (getPath w.ws (Path.comps p)).bind (readNode lossy w)
     if inContents.any Option.isNone then .error .other else
     let payload := id ++ str "(" ++ Path.intercalate (inContents.map (·.getD [])) ++ str ")"
     let ws' := outs.foldl (fun (ws : Option (Node ByteArray)) o =>
